@@ -166,5 +166,321 @@ theorem mem_textWrites (f : MonoFont) (atlas : Pt → Bool) (m : Mode) :
         | succ j =>
           exact Or.inr (Or.inr ⟨j, by simp at hi ⊢; omega, dy, hdy, dx, hdx, by rw [cellX_succ], hb⟩)
 
+/-! ### Every pixel is written at most once by the characters and gaps -/
+
+theorem offset_unique (k i j a b : Nat) (ha : a < k) (hb : b < k) (h : i * k + a = j * k + b) : i = j ∧ a = b := by
+  have hij : i = j := by
+    rcases Nat.lt_trichotomy i j with hlt | heq | hgt
+    · have := Nat.mul_le_mul_right k (Nat.succ_le_of_lt hlt)
+      rw [Nat.succ_mul] at this
+      omega
+    · exact heq
+    · have := Nat.mul_le_mul_right k (Nat.succ_le_of_lt hgt)
+      rw [Nat.succ_mul] at this
+      omega
+  subst hij
+  exact ⟨rfl, by omega⟩
+
+theorem textWrites_functional (f : MonoFont) (atlas : Pt → Bool) (m : Mode) (text : List Nat) (pos : Pt)
+    (hs : ∀ c ∈ text, (f.glyphArea c).size = ⟨f.cw, f.ch⟩) (q : Pt) (c₁ c₂ : Color)
+    (h₁ : (q, c₁) ∈ textWrites f atlas m pos text) (h₂ : (q, c₂) ∈ textWrites f atlas m pos text) : c₁ = c₂ := by
+  rw [mem_textWrites f atlas m text pos hs] at h₁ h₂
+  rcases h₁ with ⟨i, x, hi, dy, hdy, dx, hdx, hq, hc⟩ | ⟨i, hi, dy, hdy, dx, hdx, hq, hb⟩ <;>
+  rcases h₂ with ⟨i', x', hi', dy', hdy', dx', hdx', hq', hc'⟩ | ⟨i', hi', dy', hdy', dx', hdx', hq', hb'⟩
+  · rw [hq] at hq'
+    rw [Pt.ext_iff'] at hq'
+    unfold cellX at hq'
+    simp only at hq'
+    have := offset_unique (f.cw + f.spacing) i i' dx dx' (by omega) (by omega) (by omega)
+    obtain ⟨rfl, rfl⟩ := this
+    have : dy = dy' := by omega
+    subst this
+    rw [hi] at hi'; cases hi'
+    rw [hc] at hc'; cases hc'; rfl
+  · rw [hq] at hq'
+    rw [Pt.ext_iff'] at hq'
+    unfold cellX at hq'
+    simp only at hq'
+    have := offset_unique (f.cw + f.spacing) i i' dx (f.cw + dx') (by omega) (by omega) (by omega)
+    omega
+  · rw [hq] at hq'
+    rw [Pt.ext_iff'] at hq'
+    unfold cellX at hq'
+    simp only at hq'
+    have := offset_unique (f.cw + f.spacing) i i' (f.cw + dx) dx' (by omega) (by omega) (by omega)
+    omega
+  · rw [hb] at hb'; cases hb'; rfl
+
+/-! ### Decorations and the whole write list of `draw_string` -/
+
+def decoWrites (f : MonoFont) (st : Style) (width : Nat) (pos : Pt) : Writes :=
+  (match st.strikethrough.effective st.textColor with
+   | some c => rectWrites (decoRect f.stOff f.stH pos width) c
+   | none => []) ++
+  (match st.underline.effective st.textColor with
+   | some c => rectWrites (decoRect f.ulOff f.ulH pos width) c
+   | none => [])
+
+def DecoInRange (f : MonoFont) (pos : Pt) (width : Nat) : Prop :=
+  (decoRect f.stOff f.stH pos width).InRange ∧ (decoRect f.ulOff f.ulH pos width).InRange
+
+theorem drawDecorations_lowerDefault (B : Rect) (f : MonoFont) (st : Style) (width : Nat) (pos : Pt)
+    (h : DecoInRange f pos width) :
+    (f.drawDecorations st width pos).flatMap (Call.lowerDefault B) = decoWrites f st width pos := by
+  unfold MonoFont.drawDecorations decoWrites
+  rw [List.flatMap_append]
+  cases st.strikethrough.effective st.textColor <;> cases st.underline.effective st.textColor <;>
+    simp [fillSolid_lowerDefault B _ _ h.1, fillSolid_lowerDefault B _ _ h.2]
+
+/-- **The write list of `draw_string`** (either recording target): the cells and gaps of the text by
+character index, then strikethrough and underline over the text width, clipped to the target's box. -/
+theorem drawString_writes (B : Rect) (f : MonoFont) (atlas : Pt → Bool) (st : Style) (m : Mode)
+    (hm : st.mode = some m) (text : List Nat) (position : Pt) (bl : Baseline)
+    (hd : ∀ c ∈ text, f.areaDrawable (f.glyphArea c) = true)
+    (hr : TextInRange f ⟨position.x, position.y - f.baselineOffset bl⟩ text.length)
+    (hdr : DecoInRange f ⟨position.x, position.y - f.baselineOffset bl⟩ (textWidth f text.length)) :
+    (f.drawString atlas st text position bl).1.flatMap (Call.writesDefault B) =
+      clipWrites B (textWrites f atlas m ⟨position.x, position.y - f.baselineOffset bl⟩ text ++
+        (if 0 < textWidth f text.length
+         then decoWrites f st (textWidth f text.length) ⟨position.x, position.y - f.baselineOffset bl⟩ else [])) := by
+  rw [flatMap_writesDefault, drawString_of_mode f atlas st m hm]
+  simp only [List.flatMap_append]
+  rw [textBCalls_lowerDefault B f atlas m text _ hd hr]
+  congr 2
+  split
+  · exact drawDecorations_lowerDefault B f st _ _ hdr
+  · rfl
+
+theorem runDefault_eq_applyFn (B : Rect) (calls : List Call) :
+    runDefault B calls = applyFn PMap.empty (calls.flatMap (Call.writesDefault B)) := rfl
+
+theorem mem_decoWrites (f : MonoFont) (st : Style) (width : Nat) (pos : Pt) (q : Pt) (col : Color) :
+    (q, col) ∈ decoWrites f st width pos ↔
+      ((q, col) ∈ (match st.strikethrough.effective st.textColor with
+         | some c => rectWrites (decoRect f.stOff f.stH pos width) c | none => [])) ∨
+      ((q, col) ∈ (match st.underline.effective st.textColor with
+         | some c => rectWrites (decoRect f.ulOff f.ulH pos width) c | none => [])) := by
+  unfold decoWrites; rw [List.mem_append]
+
+theorem mem_rectWrites' (r : Rect) (c : Color) (q : Pt) (col : Color) :
+    (q, col) ∈ rectWrites r c ↔ col = c ∧ r.contains q = true := by
+  rw [mem_rectWrites, Rect.contains_iff]
+
+/-! ### The pixel map of a drawn string -/
+
+section PixelMap
+variable (B : Rect) (f : MonoFont) (atlas : Pt → Bool) (st : Style) (m : Mode) (hm : st.mode = some m)
+  (text : List Nat) (position : Pt) (bl : Baseline)
+  (hd : ∀ c ∈ text, f.areaDrawable (f.glyphArea c) = true)
+  (hr : TextInRange f ⟨position.x, position.y - f.baselineOffset bl⟩ text.length)
+  (hdr : DecoInRange f ⟨position.x, position.y - f.baselineOffset bl⟩ (textWidth f text.length))
+include hm hd hr hdr
+
+/-- A pixel of a character cell or gap that no decoration covers gets the colour the rule gives. -/
+theorem text_pixel_map (q : Pt) (col : Color) (hB : B.contains q = true)
+    (hq : InCell f atlas m ⟨position.x, position.y - f.baselineOffset bl⟩ text q col ∨
+          InGap f m ⟨position.x, position.y - f.baselineOffset bl⟩ text.length q col)
+    (hnd : ∀ c, (q, c) ∉ decoWrites f st (textWidth f text.length) ⟨position.x, position.y - f.baselineOffset bl⟩) :
+    runDefault B (f.drawString atlas st text position bl).1 q = some col := by
+  have hs : ∀ c ∈ text, (f.glyphArea c).size = ⟨f.cw, f.ch⟩ := fun c hc => glyphArea_size_of_drawable f c (hd c hc)
+  have e : runDefault B (f.drawString atlas st text position bl).1 q =
+      applyFn (fun _ => none) ((f.drawString atlas st text position bl).1.flatMap (Call.writesDefault B)) q := rfl
+  rw [e, drawString_writes B f atlas st m hm text position bl hd hr hdr]
+  unfold clipWrites
+  rw [List.filter_append, applyFn_append, applyFn_of_not_mem]
+  · apply applyFn_of_mem_functional
+    · rw [List.mem_filter]
+      exact ⟨(mem_textWrites f atlas m text _ hs q col).mpr hq, by simpa using hB⟩
+    · intro c' hc'
+      rw [List.mem_filter] at hc'
+      exact textWrites_functional f atlas m text _ hs q c' col hc'.1 ((mem_textWrites f atlas m text _ hs q col).mpr hq)
+  · intro w hw e'
+    rw [List.mem_filter] at hw
+    split at hw
+    · apply hnd w.2
+      rw [← e']
+      exact hw.1
+    · cases hw.1
+
+/-- A pixel that belongs to no character cell, gap or decoration is left untouched. -/
+theorem untouched_pixel_map (q : Pt)
+    (hnt : ∀ col, ¬ (InCell f atlas m ⟨position.x, position.y - f.baselineOffset bl⟩ text q col ∨
+          InGap f m ⟨position.x, position.y - f.baselineOffset bl⟩ text.length q col))
+    (hnd : ∀ c, (q, c) ∉ decoWrites f st (textWidth f text.length) ⟨position.x, position.y - f.baselineOffset bl⟩) :
+    runDefault B (f.drawString atlas st text position bl).1 q = none := by
+  have hs : ∀ c ∈ text, (f.glyphArea c).size = ⟨f.cw, f.ch⟩ := fun c hc => glyphArea_size_of_drawable f c (hd c hc)
+  have e : runDefault B (f.drawString atlas st text position bl).1 q =
+      applyFn (fun _ => none) ((f.drawString atlas st text position bl).1.flatMap (Call.writesDefault B)) q := rfl
+  rw [e, drawString_writes B f atlas st m hm text position bl hd hr hdr]
+  apply applyFn_of_not_mem
+  intro w hw e'
+  unfold clipWrites at hw
+  rw [List.mem_filter, List.mem_append] at hw
+  rcases hw.1 with h | h
+  · apply hnt w.2
+    rw [← e']
+    exact (mem_textWrites f atlas m text _ hs w.1 w.2).mp h
+  · split at h
+    · apply hnd w.2
+      rw [← e']
+      exact h
+    · cases h
+
+/-- Underline: every pixel of the rectangle `text width x underline height` at the font's underline
+offset below the (baseline-adjusted) position gets the underline colour — it is drawn last. -/
+theorem underline_pixel_map (c : Color) (hu : st.underline.effective st.textColor = some c)
+    (hw : 0 < textWidth f text.length) (q : Pt) (hB : B.contains q = true)
+    (hq : (decoRect f.ulOff f.ulH ⟨position.x, position.y - f.baselineOffset bl⟩ (textWidth f text.length)).contains q = true) :
+    runDefault B (f.drawString atlas st text position bl).1 q = some c := by
+  have e : runDefault B (f.drawString atlas st text position bl).1 q =
+      applyFn (fun _ => none) ((f.drawString atlas st text position bl).1.flatMap (Call.writesDefault B)) q := rfl
+  rw [e, drawString_writes B f atlas st m hm text position bl hd hr hdr]
+  unfold clipWrites decoWrites
+  simp only [hw, ↓reduceIte, hu]
+  rw [← List.append_assoc, List.filter_append, applyFn_append]
+  apply applyFn_of_mem_functional
+  · rw [List.mem_filter, mem_rectWrites']
+    exact ⟨⟨rfl, hq⟩, by simpa using hB⟩
+  · intro c' hc'
+    rw [List.mem_filter, mem_rectWrites'] at hc'
+    exact hc'.1.1
+
+/-- Strikethrough: likewise at the strikethrough offset, wherever the underline does not cover it. -/
+theorem strikethrough_pixel_map (c : Color) (hst : st.strikethrough.effective st.textColor = some c)
+    (hw : 0 < textWidth f text.length) (q : Pt) (hB : B.contains q = true)
+    (hq : (decoRect f.stOff f.stH ⟨position.x, position.y - f.baselineOffset bl⟩ (textWidth f text.length)).contains q = true)
+    (hnu : st.underline.effective st.textColor = none ∨
+      (decoRect f.ulOff f.ulH ⟨position.x, position.y - f.baselineOffset bl⟩ (textWidth f text.length)).contains q = false) :
+    runDefault B (f.drawString atlas st text position bl).1 q = some c := by
+  have e : runDefault B (f.drawString atlas st text position bl).1 q =
+      applyFn (fun _ => none) ((f.drawString atlas st text position bl).1.flatMap (Call.writesDefault B)) q := rfl
+  rw [e, drawString_writes B f atlas st m hm text position bl hd hr hdr]
+  unfold clipWrites decoWrites
+  simp only [hw, ↓reduceIte, hst]
+  rw [← List.append_assoc, List.filter_append, applyFn_append, applyFn_of_not_mem]
+  · rw [List.filter_append, applyFn_append]
+    apply applyFn_of_mem_functional
+    · rw [List.mem_filter, mem_rectWrites']
+      exact ⟨⟨rfl, hq⟩, by simpa using hB⟩
+    · intro c' hc'
+      rw [List.mem_filter, mem_rectWrites'] at hc'
+      exact hc'.1.1
+  · intro w hw' e'
+    rw [List.mem_filter] at hw'
+    rcases hnu with h | h
+    · rw [h] at hw'; cases hw'.1
+    · cases hue : st.underline.effective st.textColor with
+      | none => rw [hue] at hw'; cases hw'.1
+      | some cu =>
+        rw [hue] at hw'
+        have hm' : (w.1, w.2) ∈ rectWrites (decoRect f.ulOff f.ulH ⟨position.x, position.y - f.baselineOffset bl⟩ (textWidth f text.length)) cu := hw'.1
+        rw [mem_rectWrites', e', h] at hm'
+        cases hm'.2
+
+end PixelMap
+
+/-! ### Coordinate forms of the side conditions -/
+
+instance (f : MonoFont) (pos : Pt) (n : Nat) : Decidable (TextInRange f pos n) := by
+  unfold TextInRange; exact inferInstance
+instance (f : MonoFont) (pos : Pt) (w : Nat) : Decidable (DecoInRange f pos w) := by
+  unfold DecoInRange; exact inferInstance
+
+/-- `q` is not covered by a decoration that is actually drawn. -/
+def NotDecorated (f : MonoFont) (st : Style) (width : Nat) (pos q : Pt) : Prop :=
+  (st.strikethrough.effective st.textColor = none ∨ (decoRect f.stOff f.stH pos width).contains q = false) ∧
+  (st.underline.effective st.textColor = none ∨ (decoRect f.ulOff f.ulH pos width).contains q = false)
+instance (f : MonoFont) (st : Style) (w : Nat) (pos q : Pt) : Decidable (NotDecorated f st w pos q) := by
+  unfold NotDecorated; exact inferInstance
+
+theorem not_mem_decoWrites (f : MonoFont) (st : Style) (width : Nat) (pos q : Pt)
+    (h : NotDecorated f st width pos q) : ∀ c, (q, c) ∉ decoWrites f st width pos := by
+  intro c hc
+  rw [mem_decoWrites] at hc
+  rcases hc with hc | hc
+  · cases hs : st.strikethrough.effective st.textColor with
+    | none => rw [hs] at hc; cases hc
+    | some cs =>
+      rw [hs] at hc
+      have := (mem_rectWrites' _ _ _ _).mp hc
+      rcases h.1 with h1 | h1
+      · rw [hs] at h1; cases h1
+      · rw [h1] at this; cases this.2
+  · cases hs : st.underline.effective st.textColor with
+    | none => rw [hs] at hc; cases hc
+    | some cs =>
+      rw [hs] at hc
+      have := (mem_rectWrites' _ _ _ _).mp hc
+      rcases h.2 with h1 | h1
+      · rw [hs] at h1; cases h1
+      · rw [h1] at this; cases this.2
+
+/-- The only thing written to pixel `(dx, dy)` of the `i`-th cell is that cell's own pixel. -/
+theorem cell_pixel_unique (f : MonoFont) (atlas : Pt → Bool) (m : Mode) (pos : Pt) (text : List Nat)
+    (i c dx dy : Nat) (hi : text[i]? = some c) (hdx : dx < f.cw) (col : Color)
+    (h : InCell f atlas m pos text ⟨cellX f pos i + (dx : Int), pos.y + (dy : Int)⟩ col ∨
+         InGap f m pos text.length ⟨cellX f pos i + (dx : Int), pos.y + (dy : Int)⟩ col) :
+    m.colourOf (atlas ⟨(f.glyphArea c).tl.x + (dx : Int), (f.glyphArea c).tl.y + (dy : Int)⟩) = some col := by
+  rcases h with ⟨i', x', hi', dy', hdy', dx', hdx', hq', hc'⟩ | ⟨i', hi', dy', hdy', dx', hdx', hq', hb'⟩
+  · rw [Pt.ext_iff'] at hq'
+    unfold cellX at hq'
+    simp only at hq'
+    have := offset_unique (f.cw + f.spacing) i i' dx dx' (by omega) (by omega) (by omega)
+    obtain ⟨rfl, rfl⟩ := this
+    have : dy = dy' := by omega
+    subst this
+    rw [hi] at hi'; cases hi'
+    exact hc'
+  · rw [Pt.ext_iff'] at hq'
+    unfold cellX at hq'
+    simp only at hq'
+    have := offset_unique (f.cw + f.spacing) i i' dx (f.cw + dx') (by omega) (by omega) (by omega)
+    omega
+
+/-- The only thing written to a gap pixel is the background colour. -/
+theorem gap_pixel_unique (f : MonoFont) (atlas : Pt → Bool) (m : Mode) (pos : Pt) (text : List Nat)
+    (i dx dy : Nat) (hdx : dx < f.spacing) (col : Color)
+    (h : InCell f atlas m pos text ⟨cellX f pos i + (f.cw : Int) + (dx : Int), pos.y + (dy : Int)⟩ col ∨
+         InGap f m pos text.length ⟨cellX f pos i + (f.cw : Int) + (dx : Int), pos.y + (dy : Int)⟩ col) :
+    m.bgColour = some col := by
+  rcases h with ⟨i', x', hi', dy', hdy', dx', hdx', hq', hc'⟩ | ⟨i', hi', dy', hdy', dx', hdx', hq', hb'⟩
+  · rw [Pt.ext_iff'] at hq'
+    unfold cellX at hq'
+    simp only at hq'
+    have := offset_unique (f.cw + f.spacing) i i' (f.cw + dx) dx' (by omega) (by omega) (by omega)
+    omega
+  · exact hb'
+
+/-- Nothing of the characters and gaps lies outside the box `text width x character height`. -/
+theorem outside_not_in_text (f : MonoFont) (atlas : Pt → Bool) (m : Mode) (pos : Pt) (text : List Nat) (q : Pt)
+    (h : q.y < pos.y ∨ pos.y + (f.ch : Int) ≤ q.y ∨ q.x < pos.x ∨ pos.x + (textWidth f text.length : Int) ≤ q.x)
+    (col : Color) : ¬ (InCell f atlas m pos text q col ∨ InGap f m pos text.length q col) := by
+  have key : ∀ i, i < text.length → ((i * (f.cw + f.spacing) : Nat) : Int) + (f.cw : Int) ≤ (textWidth f text.length : Int) := by
+    intro i hi
+    unfold textWidth
+    obtain ⟨k, hk⟩ : ∃ k, text.length = i + 1 + k := ⟨text.length - (i + 1), by omega⟩
+    rw [hk]
+    have e1 : i + 1 + k - 1 = i + k := by omega
+    rw [e1]
+    simp only [Nat.mul_add, Nat.add_mul, Nat.one_mul, Int.natCast_add]
+    have := Int.natCast_nonneg (k * f.cw)
+    have := Int.natCast_nonneg (k * f.spacing)
+    omega
+  rintro (⟨i, x, hi, dy, hdy, dx, hdx, rfl, _⟩ | ⟨i, hi, dy, hdy, dx, hdx, rfl, _⟩)
+  · have hlt : i < text.length := by
+      rcases Nat.lt_or_ge i text.length with h' | h'
+      · exact h'
+      · rw [List.getElem?_eq_none h'] at hi; cases hi
+    have := key i hlt
+    unfold cellX at h
+    simp only at h
+    omega
+  · have k1 := key (i + 1) hi
+    rw [Nat.succ_mul] at k1
+    simp only [Int.natCast_add] at k1
+    unfold cellX at h
+    simp only at h
+    omega
+
 end Font
 end EG
